@@ -323,3 +323,31 @@ package runtime
 //@ ensures [C16:csvreader] writer != nil && data != nil && typeis(data, "*encoding/csv.Reader") && nonnilptr(data) ==> calls(PC) == 1 && arg(PC,0,1) == data && calls(AR) == 1 && arg(AR,0,1) == unboxptr(data, "*encoding/csv.Reader")
 //@ ensures [C16:custom] writer != nil && data != nil && !typeis(data, "*encoding/csv.Reader") && implements(data, "CSVReader") ==> calls(PC) == 1 && arg(PC,0,1) == data && calls(AR) == 0
 //@ ensures [C16:marshalerr] calls(MB) == 1 && ret(MB,0,1) != nil ==> result == ret(MB,0,1) && calls(BC) == 0 && calls(PC) == 0
+
+// ---------------------------------------------------------------- request.go / client_request.go helpers used by the client (C11, C12)
+
+//@ func CanHaveBody
+//@ watch TU = call strings.ToUpper
+//@ ensures calls(TU) == 1 && arg(TU,0,0) == method && (result <==> ret(TU,0,0) == "POST" || ret(TU,0,0) == "PUT" || ret(TU,0,0) == "PATCH" || ret(TU,0,0) == "DELETE")
+//@ assigns \nothing
+
+//@ func NamedReader
+//@ watch NC = call io.NopCloser
+//@ ensures result != nil && typeis(result, "*github.com/go-openapi/runtime.namedReadCloser") && unboxptr(result, "*namedReadCloser").name == name
+//@ ensures implements(rdr, "io.ReadCloser") ==> calls(NC) == 0 && unboxptr(result, "*namedReadCloser").cr == rdr
+//@ ensures !implements(rdr, "io.ReadCloser") ==> calls(NC) == 1 && arg(NC,0,0) == rdr && unboxptr(result, "*namedReadCloser").cr == ret(NC,0,0)
+
+//@ func (*namedReadCloser).Close
+//@ watch CL = invoke (io.Closer).Close
+//@ requires n != nil && n.cr != nil
+//@ ensures calls(CL) == 1 && recv(CL,0) == old(n.cr) && result == ret(CL,0,0)
+
+//@ func (*namedReadCloser).Read
+//@ watch RD = invoke (io.Reader).Read
+//@ requires n != nil && n.cr != nil
+//@ ensures calls(RD) == 1 && recv(RD,0) == old(n.cr) && arg(RD,0,0) == p && result0 == ret(RD,0,0) && result1 == ret(RD,0,1)
+
+//@ func (*namedReadCloser).Name
+//@ requires n != nil
+//@ ensures result == n.name
+//@ assigns \nothing
